@@ -133,9 +133,9 @@ class C06(Prop):
             k = (len(res[1].split(",")) if len(res) > 1 and res[1] else 0) if res[0] == "ok" else out
             shape = "none" if k == 0 else ("all" if k == n else "some") if res[0] == "ok" else out[:20]
             pi = 4 if op == "set.filter" else 3
-            return f"{op}:{'empty-set' if empty else 'members'}:ov={args[1]}:p={args[pi]}:{shape}"
+            return f"{op}:{'empty-set' if empty else 'members'}:p={args[pi]}:{shape}"
         if op in ("set.contains",):
-            return f"{op}:{out[:14]}:p={args[5]}:inst={args[6]}"
+            return f"{op}:{out[:14]}:inst={args[6]}"
         if op == "spec.h.contains":
             return f"{op}:{out[:14]}:p={args[4]}"
         return f"{op}:{out[:18]}"
@@ -198,6 +198,11 @@ class C06(Prop):
             return self._check(law, inp)
         except G.Domain as e:
             return True, "outside the law's domain: " + str(e)
+        except Exception as e:
+            if type(e).__name__ == "InvalidVersion" and law != "monotone_final" and _has_raw_arbitrary(inp.get("clauses", [])):
+                # before C03-fix-3 `.prereleases` of ===<text> raised; the law `monotone_final` reports that
+                return True, "outside the law's domain: a member raises InvalidVersion"
+            raise
 
     def _check(self, law, inp):
         Specifier, SpecifierSet, InvalidSpecifier, Version, InvalidVersion = G.P()
@@ -222,8 +227,8 @@ class C06(Prop):
             t = m.version[:-2] if (m.operator == "==" and m.version.endswith(".*")) else m.version
             try:
                 return Version(t).is_prerelease
-            except InvalidVersion:      # ===<text>: `.prereleases` raises (DESIGN §8 row 5, owned by C03/C11)
-                raise G.Domain("arbitrary-equality clause whose text is not a version")
+            except InvalidVersion:      # ===<text that is no version> names no pre-release
+                return False
 
         auto = any([names_pre(m) for m in members])     # eager: every member must be in the domain
         empty = how != "spec" and len(set(members)) == 0
@@ -266,9 +271,14 @@ class C06(Prop):
             for c, v in zip(inp["cands"], vers):
                 res = {}
                 for ov, p in itertools.product(OVS, OVS):
-                    res[(ov, p)] = mk(ov).contains(c, prereleases=p)
+                    try:
+                        res[(ov, p)] = mk(ov).contains(c, prereleases=p)
+                    except InvalidVersion:      # DESIGN §8 row 5 (before C03-fix-3): `.prereleases` of ===<text> raised
+                        res[(ov, p)] = "raises InvalidVersion"
                 if not v.is_prerelease and len(set(res.values())) != 1:
                     return False, f"final release {c!r}: contains depends on the pre-release setting: {res}"
+                if any(isinstance(r, str) for r in res.values()):
+                    raise G.Domain("a member raises")
                 for (ov, p), r in res.items():
                     if r and not res[(ov, True)]:
                         return False, f"{c!r} matched with prereleases={p} (override {ov}) but not with prereleases=True"
@@ -353,6 +363,14 @@ class C06(Prop):
                 return False, "assigning .prereleases on one object changed another object"
             return True, ""
         raise KeyError(law)
+
+
+def _has_raw_arbitrary(clauses):
+    from props.C05 import _has_raw
+    try:
+        return _has_raw(clauses)
+    except Exception:
+        return False
 
 
 PROP = C06()
